@@ -145,7 +145,7 @@ func structFields(c *report.Ctx, pkg, name string) []*types.Var {
 				if p, ok := et.(*types.Pointer); ok {
 					et = p.Elem()
 				}
-				if en, ok := et.(*types.Named); ok && en.Obj().Pkg() != nil && load.GlueStruct[en.Obj().Pkg().Path()+"."+en.Obj().Name()] {
+				if en, ok := et.(*types.Named); ok && en.Obj().Pkg() != nil && load.GlueStruct[load.CanonTypeName(en)] {
 					if est, ok := en.Underlying().(*types.Struct); ok {
 						add(en, est, depth+1)
 						continue
